@@ -342,12 +342,25 @@ hist! {
             deliver(a);
             assert!(log_is(if which == 0 { &[PREV3, 2, 3] } else if which == 1 { &[PREV3, 1, 3] } else { &[PREV3, 1, 2] }),
                 "C02.HIST-ORDER: after a removal the remaining actions still run in the order they were registered (whichever one was removed)");
-            let i4 = register_sigaction(a, act(4)).unwrap();
-            assert!(i4 != i1 && i4 != i2 && i4 != i3, "C05.HIST-ID-FRESH: ids are not reused after a removal");
-            deliver(a);
-            assert!(LOGN == 4 && LOG[3] == 4, "C02.HIST-ORDER: a later registration runs last");
             assert!(lm::N_SIGACTION == 2, "C05.HIST-INSTALL-ONCE: the handler is installed once (query + install) for the whole history");
             kani::cover!(which == 0, "C02.cover: oldest removed");
+        }
+    }
+}
+
+// ids are not reused and a later registration runs last
+hist! {
+    fn c05_hist_reregister() {
+        let a: c_int = kani::any();
+        kani::assume(!FORBIDDEN.contains(&a));
+        unsafe {
+            let i1 = register_sigaction(a, act(1)).unwrap();
+            let i2 = register_sigaction(a, act(2)).unwrap();
+            assert!(unregister(if kani::any() { i1 } else { i2 }), "C05.HIST-UNREG: unregister of a live id returns true");
+            let i4 = register_sigaction(a, act(4)).unwrap();
+            assert!(i4 != i1 && i4 != i2, "C05.HIST-ID-FRESH: ids are not reused after a removal");
+            deliver(a);
+            assert!(LOGN == 3 && LOG[2] == 4, "C02.HIST-ORDER: a later registration runs last");
         }
     }
 }
